@@ -23,6 +23,9 @@ def run(rep):
     rep.guard(l8, rep, w)
     rep.guard(l9, rep, w)
     rep.guard(l12, rep, w)
+    rep.guard(l13, rep, w)
+    rep.guard(l14, rep, w)
+    rep.guard(l15, rep, w)
     import c04
     rep.guard(c04.b5, rep, w)     # the frame limit is tested before the frame is pushed: the overflow report resolves the caller's ip in the caller's chunk
     import c15
@@ -789,3 +792,81 @@ def l12(rep, w, prop='C17'):
     r.check(bool(roots) and not bad, 'add_chunk: the result is the new allocation of its argument',
             'add_chunk can answer with a chunk obtained from %s instead of the allocation of the chunk it was given: a function shares the line table (and identity) of another function\'s code'
             % sorted(set(bad)), f.loc())
+
+
+def l13(rep, w, prop='C17'):
+    """line numbers in traces through the core library refer to the file a reader opens: the text the interpreter compiles at start-up (the value
+    of the crate's CORE_SOURCE constant, whatever the build script did to produce it) is the text of src/core.yl, byte for byte. A build step that
+    strips blank lines, comments or indentation shifts every `line N in map()` of every program."""
+    import os
+    r = rep.rule('L13', 'the core source compiled at start-up is the text of core.yl, unchanged (same lines, same columns)', floor=1)
+    text = None
+    for path, k in w.yarel.consts.items():
+        if 'str' in k and path.rsplit('::', 1)[-1] == 'CORE_SOURCE':
+            text = k['str']
+    if text is None:
+        raise Broken(prop, 'anchor', 'CORE_SOURCE constant not found')
+    repo = getattr(rep, 'repo', '/repo')
+    cands = []
+    for root, _, files in os.walk(repo):
+        if '/target' in root or '/.git' in root:
+            continue
+        for fn in files:
+            if fn == 'core.yl':
+                cands.append(os.path.join(root, fn))
+    if len(cands) != 1:
+        raise Broken(prop, 'anchor', 'core.yl not found exactly once under the repository (%d)' % len(cands))
+    src = open(cands[0], encoding='utf-8').read()
+    same = src == text
+    where = ''
+    if not same:
+        a, b = src.split('\n'), text.split('\n')
+        for i, (x, y) in enumerate(zip(a, b)):
+            if x != y:
+                where = 'first difference at line %d' % (i + 1)
+                break
+        else:
+            where = '%d lines in the file, %d in the constant' % (len(a), len(b))
+    r.check(same, 'CORE_SOURCE == core.yl', 'the embedded core source differs from core.yl (%s): traces through the core classes name lines that are not the lines of the file' % where, cands[0].replace(repo + '/', ''))
+
+
+def l14(rep, w, prop='C17'):
+    """... and the lines of a program are the lines of its file: what the command line hands to the interpreter is the content it read, unedited
+    (a `#!` line cut off together with its newline moves every later line up by one)."""
+    r = rep.rule('L14', 'the command line interprets the file content it read, unedited', floor=1)
+    cli = w.crates.get('yarel_cli')
+    if cli is None:
+        raise Broken(prop, 'anchor', 'crate yarel_cli not analysed')
+    n = 0
+    for f in sorted(cli.fns.values(), key=lambda x: x.path):
+        reads = [bi for bi, t in f.calls() if strip_generics(callee_name(t) or '').endswith('fs::read_to_string')]
+        runs = [(bi, t) for bi, t in f.calls() if (callee_name(t) or '').startswith('yarel::vm::interpret') or (callee_name(t) or '').endswith('::compile')]
+        if not reads or not runs:
+            continue
+        org = origins(f)
+        for bi, t in runs:
+            src = None
+            for a in t['args']:
+                pl = op_place(a)
+                if pl is not None and 'String' in f.crate.tstr(f.local_ty(pl['l'])):
+                    src = pl
+            if src is None:
+                continue
+            n += 1
+            roots = org.get(src['l'], ())
+            bad = sorted({q[0][2].rsplit('::', 1)[-1] for q in roots if q[0][0] == 'call' and q[0][1] not in reads} | {x for q in roots for x in q[1:] if x.startswith('#')})
+            r.check(bool(roots) and not bad, '%s / the text interpreted is what read_to_string returned' % f.path,
+                    '%s edits the file content before interpreting it (%s): line numbers of compile errors and traces no longer match the file' % (f.path, bad), f.loc(t.get('sp')))
+    if n == 0:
+        raise Broken(prop, 'anchor', 'no function of the command line both reads a file and interprets it')
+
+
+def l15(rep, w, prop='C17'):
+    """every line that is added to an error report is kept: the collecting method appends on every path (a "skip empty entries" filter drops the
+    blank lines of a multi-line message)."""
+    r = rep.rule('L15', 'Error::add_message appends its argument on every path', floor=1)
+    f = w.require_fn('yarel::error::Error::add_message', prop)
+    pushes = {bi for bi, t in f.calls() if strip_generics(callee_name(t) or '').rsplit('::', 1)[-1] in ('push', 'push_back', 'extend', 'insert')}
+    import c01
+    r.check(bool(pushes) and c01.all_paths_hit(f, None, pushes), 'add_message: push on every path',
+            'Error::add_message can return without having stored the message: part of an error report is silently dropped', f.loc())
